@@ -15,7 +15,9 @@ PID = "C07"
 
 ALL_MUTS = ["trunc_before", "trunc_before_fix", "trunc_inside", "trunc_inside_fix", "len_0", "len_m1", "len_p1",
             "len_max", "count_0", "count_p1", "count_max", "tag_unknown", "val_0", "val_max", "dup", "dup_fill", "dup_fill_empty", "empty",
-            "list_plus1", "list_minus1", "swap", "nest", "seq_m1", "seq_p1", "seq_p2", "seq_p32768", "seq_half"]
+            "list_plus1", "list_minus1", "swap", "nest", "seq_m1", "seq_p1", "seq_p2", "seq_p32768", "seq_half",
+            "lst_empty_mid", "lst_lead", "lst_trail", "lst_only_sep", "lst_multibyte", "lst_multibyte_first", "lst_prefix_only",
+            "lst_many", "lst_long"]
 
 DECODERS = ["rtp", "rtcp", "stun", "dtls_record", "dtls_hsmsg", "dtls_clienthello", "dtls_serverhello", "dtls_hvr",
             "dtls_ske", "dtls_cert", "dtls_cke", "dtls_finished", "dcep", "sdp", "candidate"]
